@@ -513,7 +513,15 @@ theorem world_instruction_keeps_shape (c : Ctx) (hs : Shape c.a.slots) :
   ⟨fun _ _ _ h => deposit_shape h hs, fun _ _ h => borrow_shape h hs, fun _ _ _ h => withdraw_shape h hs,
    fun _ _ _ h => repay_shape h hs, fun _ h => close_shape h hs⟩
 
-/-- **world_shape_history**: over EVERY history of whole instructions by any signers on any accounts and banks, every
+/-- a classic liquidation keeps the shape of the liquidator's AND the liquidatee's slot array; a bankruptcy settlement keeps
+    the shape of the bankrupt account's -/
+theorem world_liquidation_and_bankruptcy_keep_shape :
+    (∀ (c : LiqCtx) amount o, World.liquidate c amount = .ok o → Shape c.lq.slots → Shape c.le.slots → Shape o.lqSlots ∧ Shape o.leSlots) ∧
+    (∀ (c : Ctx) available o, World.bankruptcy c available = .ok o → Shape c.a.slots → Shape o.slots) :=
+  ⟨fun _ _ _ h hq he => liquidate_shape h hq he, fun _ _ _ h hs => bankruptcy_shape h hs⟩
+
+/-- **world_shape_history**: over EVERY history of whole instructions (the five user instructions, classic liquidations,
+    bankruptcy settlements) by any signers on any accounts and banks, every
     account keeps 16 slots, at most one position per bank, and its positions ordered by bank key as the risk engine expects. -/
 theorem world_shape_history (w : WState) (ops : List WOp) (h : WShape w) : WShape (w.run ops) := run_shape ops w h
 
